@@ -3,7 +3,7 @@ cython_profiles.isi_profile_cython share it: same parameter and local names)."""
 import z3
 from ..sym import *  # noqa
 from ..engine import LoopSpec
-from ..harness import Contract, Ctx, in_array
+from ..harness import Contract, Ctx, in_array, in_real
 from .. import spec
 
 
@@ -23,18 +23,18 @@ class IsiProfile(Contract):
             init=self.ghost_init, step=self.ghost_step, ghost=('g1', 'g2'))}
 
     # ------------------------------------------------------------------ inputs / precondition
-    def setup(self, mode, size):
+    def setup(self, mode, size, values=None):
         st = State()
         if mode == 'B':
             N1, N2 = size
         else:
             N1, N2 = z3.Int('N1'), z3.Int('N2')
-        t0, t1, M = z3.Real('t_start'), z3.Real('t_end'), z3.Real('MRTS')
-        s1 = in_array(st, 's1', N1, mode)
-        s2 = in_array(st, 's2', N2, mode)
+        t0, t1, M = in_real('t_start', values), in_real('t_end', values), in_real('MRTS', values)
+        s1 = in_array(st, 's1', N1, mode, values)
+        s2 = in_array(st, 's2', N2, mode, values)
         st.vars.update(s1=s1, s2=s2, t_start=t0, t_end=t1, MRTS=M)
         S1, S2 = st.acc(s1), st.acc(s2)
-        pre = [t0 < t1, M >= 0, spec.valid_train(S1, t0, t1), spec.valid_train(S2, t0, t1)]
+        pre = [cmp('<', t0, t1), cmp('>=', M, 0), spec.valid_train(S1, t0, t1), spec.valid_train(S2, t0, t1)]
         pre = [p for p in pre if p is not True]
         ctx = Ctx(mode=mode, N1=N1, N2=N2, t0=t0, t1=t1, M=M, s1=s1, s2=s2, S1=S1, S2=S2,
                   inputs=dict(s1=('array', 's1', N1), s2=('array', 's2', N2), t_start=('real', 't_start'),
